@@ -205,6 +205,10 @@ func (u *Unit) inline(fr *Frame, st *State, fn *ssa.Function, args []Val, bindin
 	if fr.depth >= maxInlineDepth {
 		unsupp("inline depth exceeded at %s", fn)
 	}
+	if len(fn.Blocks) == 0 && fn.Pkg != nil {
+		// a function of a dependency asked to be executed in place: build its package's SSA now
+		fn.Pkg.Build()
+	}
 	if len(fn.Blocks) == 0 {
 		return u.uncontracted(st, fn.Signature, funcKey(fn), pos)
 	}
